@@ -120,12 +120,14 @@ func (b Tri) MarshalFlag() (string, error) {
 // Comp is a string type providing completions from a fixed word list.
 type Comp string
 
-var compWords = []string{"alpha", "alps", "beta", "be-ta", "gamma", "-dash", "=eq"}
+// (matching ignores case and the candidates come in their canonical spelling, so
+// a candidate need not literally extend what was typed)
+var compWords = []string{"alpha", "alps", "beta", "be-ta", "gamma", "-dash", "=eq", "Release-1", "Release-2", "Main-Legacy", "main"}
 
 func compRef(match string) []string {
 	var r []string
 	for _, w := range compWords {
-		if strings.HasPrefix(w, match) {
+		if strings.HasPrefix(strings.ToLower(w), strings.ToLower(match)) {
 			r = append(r, w)
 		}
 	}
